@@ -1,3 +1,5 @@
+#[cfg(mos_verif_threads)]
+use mos_simrt::std_shim as std;
 use crate::diagnostic_emitter::MosResult;
 use crate::memory_accessor::{ensure_ram_fn, MemoryAccessor};
 use crate::utils::paint;
